@@ -330,8 +330,8 @@ CONTRACTS += [
 #   bundle OP signal    the scalar operand is delivered on GREEN (so `each`, reading red, does not iterate over it)
 #   (each CMP signal)   the scalar on GREEN;  any(b) / all(b) CMP signal: the scalar on GREEN (the wildcard must not range over it)
 #   (c) : bundle        the bundle is delivered on GREEN — from its PHYSICAL producer, and, for a wire-merged bundle, from every member
-# and nothing else is locked.  Evaluated on the REAL method with real plan / graph / module objects over every subset of these six
-# features (64 plans): bounded.
+# and nothing else is locked.  Evaluated on the REAL method with real plan / graph / module objects over every subset of these seven
+# features (128 plans): bounded.
 # =================================================================================================
 import itertools as _it2c  # noqa: E402
 
@@ -369,7 +369,7 @@ def locked_colors_arg_sets():
             self.signal_usage = usage
 
     out = []
-    feats = ("cell", "folded", "bundle_arith", "bundle_filter", "bundle_gate", "wildcard_cmp")
+    feats = ("cell", "folded", "bundle_arith", "bundle_filter", "bundle_gate", "wildcard_cmp", "wildcard_own_gate")
     for mask in _it2c.product((False, True), repeat=len(feats)):
         on = {f for f, m in zip(feats, mask) if m}
         plan, g, usage, expected, modules, junctions = LayoutPlan(), SignalGraph(), {}, {}, {}, {}
@@ -406,6 +406,12 @@ def locked_colors_arg_sets():
             usage["vsrc"] = _Usage("signal-V")
             expected[("usrc", "signal-U")] = "green"
             expected[("vsrc", "signal-V")] = "green"   # the copied value stays off the wildcard's wire too
+        if "wildcard_own_gate" in on:   # (all(b) > w) : b — the bundle goes green as for every gate, so the scalar takes red
+            place("own_gate", "decider-combinator", needs_wire_separation=True, left_operand="signal-everything", left_operand_signal_id=SignalRef("signal-everything", "bsrc"),
+                  right_operand="signal-W2", right_operand_signal_id=SignalRef("signal-W2", "wsrc"), output_value_signal_id=BundleRef({"signal-A"}, "bsrc"))
+            usage["bsrc"] = _Usage("signal-each")
+            expected[("wsrc", "signal-W2")] = "red"
+            expected[("bsrc", "signal-each")] = "green"
         if "bundle_gate" in on:
             place("gate", "decider-combinator", needs_wire_separation=True, left_operand="signal-G", right_operand=0,
                   output_value_signal_id=BundleRef({"signal-A"}, "merged_bundle"))
